@@ -90,6 +90,7 @@ fn run_lines() {
             "attach" => c12::attach(&mut t),
             "early" => c12::early(&mut t),
             "restart" => c13::restart(&mut t),
+            "inflight" => c13::inflight(&mut t),
             "schema" => c15::schema(&mut t),
             "authz" => c17::authz(&mut t),
             "backup" => c19::backup(&mut t),
